@@ -10,7 +10,10 @@ import (
 	"sort"
 	"strings"
 
+	"encoding/json"
 	"golang.org/x/tools/go/ssa"
+	"os"
+	"path/filepath"
 )
 
 type Engine struct {
@@ -35,39 +38,42 @@ type Engine struct {
 	typeTags  map[string]int
 	funcRefs  map[*ssa.Function]int
 
-	unmodelled    map[string]bool
-	assumptions   map[string]bool
-	usedTrusted   map[string]bool
-	usedLemmas    map[string]bool
-	shared        map[string]bool
-	cfgErrors     []string
-	loopUsed      map[string]bool
-	assertUsed    map[string]bool
-	recApps       map[string]bool
-	recAxioms     []*Term
-	recTemplates  map[string]*recTemplate
-	verified      []FuncReport
-	curExec       *Exec
-	feasCount     int
-	tier          string
-	timeoutS      int
-	verbose       bool
-	globalsInit   map[string][]*Term
-	recDepth      int
-	debugQ        bool
-	siteOrds      map[*ssa.Function]map[ssa.Instruction]siteInfo
-	lastCuts      []int
-	ghostDecls    map[string]*Sort
-	typeOfTag     map[int]types.Type
-	debugN        int
-	litCache      map[string][]literalRow
-	pkgOfFile     map[*ContractFile]string
-	sentinel      map[string]bool
-	sentinelIDs   map[string]int
-	keepScripts   bool
-	orphans       []string
-	undecided     map[string]string // function -> why its contract no longer attaches
-	extraEvidence map[string]interface{}
+	unmodelled     map[string]bool
+	assumptions    map[string]bool
+	usedTrusted    map[string]bool
+	usedLemmas     map[string]bool
+	shared         map[string]bool
+	cfgErrors      []string
+	loopUsed       map[string]bool
+	assertUsed     map[string]bool
+	recApps        map[string]bool
+	recAxioms      []*Term
+	recTemplates   map[string]*recTemplate
+	verified       []FuncReport
+	curExec        *Exec
+	feasCount      int
+	tier           string
+	timeoutS       int
+	verbose        bool
+	globalsInit    map[string][]*Term
+	recDepth       int
+	debugQ         bool
+	siteOrds       map[*ssa.Function]map[ssa.Instruction]siteInfo
+	lastCuts       []int
+	ghostDecls     map[string]*Sort
+	typeOfTag      map[int]types.Type
+	debugN         int
+	litCache       map[string][]literalRow
+	pkgOfFile      map[*ContractFile]string
+	sentinel       map[string]bool
+	sentinelIDs    map[string]int
+	keepScripts    bool
+	orphans        []string
+	undecided      map[string]string // function -> why its contract no longer attaches
+	hints          map[string][]localHint
+	fnByReportName map[string]*ssa.Function
+	staleClauses   map[string]string // function#clause -> why the clause could not be evaluated (dropped for this run)
+	extraEvidence  map[string]interface{}
 }
 
 type FuncReport struct {
@@ -794,6 +800,10 @@ func (E *Engine) VerifyFunction(fn *ssa.Function, fc *FuncContract) {
 			rep.Mode = "int"
 		}
 		E.verified = append(E.verified, rep)
+		if E.fnByReportName == nil {
+			E.fnByReportName = map[string]*ssa.Function{}
+		}
+		E.fnByReportName[rep.Name] = fn
 	}()
 	if fn.Blocks == nil {
 		st := x.newState()
@@ -868,8 +878,7 @@ func (E *Engine) VerifyFunction(fn *ssa.Function, fc *FuncContract) {
 		a := &fc.Asserts[ai]
 		if a.Kind == "set" && a.Callee == "entry" {
 			E.markAssertUsed(fc, ai)
-			v := x.eval(env, a.C.E)
-			if len(v.L) == 1 {
+			if v, ok := x.specVal(env, a.C.E, "set:"+a.Ghost); ok && len(v.L) == 1 {
 				st.ghost["ghost!"+a.Ghost] = v.L[0]
 			}
 		}
@@ -1027,6 +1036,10 @@ func (E *Engine) addPost(x *Exec, st *State, env *Env, c Clause) {
 	defer func() {
 		if r := recover(); r != nil {
 			if ee, ok := r.(evalError); ok {
+				if staleContract(ee.msg) {
+					E.noteStaleClause(x.fn, "post:"+labelOr(c, "ensures"), ee.msg)
+					return
+				}
 				E.addOblig(x, st, "post", labelOr(c, "ensures"), FalseT, "contract evaluation: "+ee.msg, fmt.Sprintf("%s:%d", c.File, c.Line), nil)
 				return
 			}
@@ -1133,4 +1146,134 @@ func (E *Engine) markUndecided(fname, why string) {
 	if _, ok := E.undecided[fname]; !ok {
 		E.undecided[fname] = why
 	}
+}
+
+// specBool evaluates one clause of the contract of the function under verification.  A clause that names something
+// the code no longer has (a renamed local, a removed field) is dropped for this run and recorded: it is reported as
+// UNDECIDED, the function's other obligations are checked and reported as usual.
+func (x *Exec) specBool(env *Env, e *SExpr, what string) (t *Term, ok bool) {
+	defer func() {
+		if r := recover(); r != nil {
+			if ee, isE := r.(evalError); isE && staleContract(ee.msg) {
+				x.E.noteStaleClause(x.fn, what, ee.msg)
+				t, ok = nil, false
+				return
+			}
+			panic(r)
+		}
+	}()
+	return x.evalBool(env, e), true
+}
+
+// specVal: like specBool for the right-hand side of a ghost update.
+func (x *Exec) specVal(env *Env, e *SExpr, what string) (v Val, ok bool) {
+	defer func() {
+		if r := recover(); r != nil {
+			if ee, isE := r.(evalError); isE && staleContract(ee.msg) {
+				x.E.noteStaleClause(x.fn, what, ee.msg)
+				ok = false
+				return
+			}
+			panic(r)
+		}
+	}()
+	return x.eval(env, e), true
+}
+
+func (E *Engine) noteStaleClause(fn *ssa.Function, what, msg string) {
+	if E.staleClauses == nil {
+		E.staleClauses = map[string]string{}
+	}
+	key := shortPkg(fnPkgPath(fn)) + "." + relName(fn) + "#" + what
+	if _, ok := E.staleClauses[key]; !ok {
+		E.staleClauses[key] = msg
+	}
+}
+
+// ---------------------------------------------------------------- positions of named locals (rename robustness)
+
+type localHint struct {
+	Name string `json:"name"`
+	Type string `json:"type"`
+	Ord  int    `json:"ord"` // rank among the named locals of that type, in declaration order (1-based)
+}
+
+func hintsPath() string { return filepath.Join(verifRoot, "contracts", "local_hints.json") }
+
+func fnKey(fn *ssa.Function) string { return shortPkg(fnPkgPath(fn)) + "." + relName(fn) }
+
+// namedLocals: the named local variables of fn in declaration order, with their rank per type.
+func namedLocals(fn *ssa.Function) []localHint {
+	var out []localHint
+	per := map[string]int{}
+	seen := map[string]bool{}
+	for _, b := range fn.Blocks {
+		for _, in := range b.Instrs {
+			al, ok := in.(*ssa.Alloc)
+			if !ok || al.Comment == "" || strings.ContainsAny(al.Comment, " .$") {
+				continue
+			}
+			t := al.Type().String()
+			per[t]++
+			if seen[al.Comment] {
+				continue // shadowed names are addressed as name#N, not through hints
+			}
+			seen[al.Comment] = true
+			out = append(out, localHint{Name: al.Comment, Type: t, Ord: per[t]})
+		}
+	}
+	return out
+}
+
+func (E *Engine) loadHints() {
+	if E.hints != nil {
+		return
+	}
+	E.hints = map[string][]localHint{}
+	if b, err := os.ReadFile(hintsPath()); err == nil {
+		json.Unmarshal(b, &E.hints)
+	}
+}
+
+// localByHint: the local of fn that stands where the local called name stood on the unchanged tree.
+func (E *Engine) localByHint(fn *ssa.Function, name string) *ssa.Alloc {
+	E.loadHints()
+	for _, h := range E.hints[fnKey(fn)] {
+		if h.Name != name {
+			continue
+		}
+		n := 0
+		for _, b := range fn.Blocks {
+			for _, in := range b.Instrs {
+				al, ok := in.(*ssa.Alloc)
+				if !ok || al.Comment == "" || strings.ContainsAny(al.Comment, " .$") || al.Type().String() != h.Type {
+					continue
+				}
+				n++
+				if n == h.Ord {
+					// only a local whose own name is not used by the contracts as another variable can stand in
+					for _, o := range E.hints[fnKey(fn)] {
+						if o.Name == al.Comment {
+							return nil
+						}
+					}
+					E.noteAssumption(fmt.Sprintf("RENAMED LOCAL: the contract of %s names %q; no such local exists, the local %q at the same position (type and declaration rank) is taken for it", fnKey(fn), name, al.Comment))
+					return al
+				}
+			}
+		}
+	}
+	return nil
+}
+
+// writeHints records the named locals of every function verified in this run (GOVC_WRITE_HINTS=1, on the unchanged tree).
+func (E *Engine) writeHints() {
+	E.loadHints()
+	for _, rep := range E.verified {
+		if fn := E.fnByReportName[rep.Name]; fn != nil {
+			E.hints[rep.Name] = namedLocals(fn)
+		}
+	}
+	b, _ := json.MarshalIndent(E.hints, "", " ")
+	os.WriteFile(hintsPath(), b, 0o644)
 }
